@@ -44,7 +44,7 @@ theorem calc_send_some (p : Party) (h : SlotInv p.slots) :
   unfold Party.calcDataKeys
   cases hhit : findSlot p.slots
       (fun s => s.used && s.theirKeyId == p.theirKeyId && s.myKeyId == pred32 p.myKeyId) with
-  | some i => simp
+  | some i => simp only; exact Option.some_ne_none i
   | none =>
     simp only
     have hmiss := miss_not_mem p.slots _ _ hhit
@@ -53,10 +53,11 @@ theorem calc_send_some (p : Party) (h : SlotInv p.slots) :
     cases hp : p.pickSlot with
     | none => exact absurd hp (pickSlot_some p h _ _ hw hmiss)
     | some i =>
-      simp only
-      by_cases hm : pred32 p.myKeyId = p.myKeyId
-      · simp only [hm, if_true]; exact fun h => by cases h
-      · simp only [hm, if_false, if_true]; exact fun h => by cases h
+      -- (keep `pred32` opaque: deciding equalities about `(n + 4294967295) % 4294967296` must not unfold it)
+      generalize pred32 p.myKeyId = m'
+      by_cases hm : m' = p.myKeyId
+      · simp only [hm, if_true]; exact Option.some_ne_none i
+      · simp only [hm, if_false, if_true]; exact Option.some_ne_none i
 
 theorem genData_ok (p : Party) (text : Bytes) (extra : Option STlv) (h : SlotInv p.slots) :
     ∃ q m, p.genData text extra = .ok (q, m) ∧ Keeps p q := by
